@@ -1011,7 +1011,7 @@ class C09(Prop):
         rng = ctx.rng(stream)
         cases = []
         small = [p for k in (1, 2, 3, 4) for p in util.all_parents(k)]
-        nrand = ctx.scale(110, 1400) * budget_scale
+        nrand = ctx.scale(110, 2000) * budget_scale
         maxn = ctx.scale(7, 8)
         trees = [(p, "all") for p in small] * ctx.scale(1, 4)
         for _ in range(nrand):
